@@ -120,6 +120,12 @@ def amen_mm(A, B, nswp=22, X0=None, eps=1e-10, rmax=1024, kickrank=4, kick2=0, v
     Returns:
         torchtt.TT: the result.
     """
+    if not (isinstance(A, torchtt.TT) and isinstance(B, torchtt.TT)):
+        raise InvalidArguments('A and B must be TT instances.')
+    if not (A.is_ttm and B.is_ttm):
+        raise IncompatibleTypes('A and B must be TT-matrices.')
+    if A.N != B.M:
+        raise ShapeMismatch('Dimension mismatch.')
     return _amen_mm_python(A.cores, B.cores, A.M, B.N, A.N, True, nswp, X0.cores if X0 is not None else None, X0.R if X0 is not None else None,   eps, rmax, kickrank, kick2, verbose)
 
 
